@@ -8,7 +8,7 @@
              value]
     result: -1 model and observation differ; -2 they differ but the observation is what the
             PINNED (unrepaired) generators produce; otherwise a tag
-            = in-domain bits (1 Go, 2 Java, 4 Dart, 8 Python) + 16 * min(#vars, 3)
+            = bits: hypotheses of theorem c08_matches_spec hold for (1 Go, 2 Java, 4 Dart, 8 Python) + 16 * min(#vars, 3)
               + 64 * [prefix not empty] + 128 * [model made no prediction for some value]
               + 256 * [prefix rejected by the parser]. *)
 From Coq Require Import ZArith List Bool.
@@ -77,8 +77,9 @@ Definition judge_case (t : tok) : Z :=
     if r <? 0 then
       (if 0 <=? fold_obs pinned delim sc op pfx vals obs then -2 else -1)
     else
-      b2z (in_domain Go delim sc op pfx) + 2 * b2z (in_domain Java delim sc op pfx)
-      + 4 * b2z (in_domain Dart delim sc op pfx) + 8 * b2z (in_domain Py delim sc op pfx)
+      let covered l := in_domain l delim sc op pfx && vars_safe l Pub op (vars_of g)
+                       && vars_safe l Sub op (vars_of g) in
+      b2z (covered Go) + 2 * b2z (covered Java) + 4 * b2z (covered Dart) + 8 * b2z (covered Py)
       + 16 * Z.min (Z.of_nat (List.length (vars_of g))) 3
       + 64 * b2z (negb (null pfx)) + 128 * r
   end.
